@@ -40,6 +40,10 @@ CELLS = [
     ("always_allow_keywords_off", "", False, {"always_allow_keywords": False}),
     ("limited_api", "-DCYTHON_LIMITED_API=1 -DPy_LIMITED_API=0x030C0000", False, {}),
 ]
+# (cell, corpus) pairs in which the corpus' own oracle is not valid: C05 measures the signedness of enum types with a C
+# expression whose value differs under C++ rules, so its expectations for enums are wrong in a C++ build although the compiled
+# behaviour is the same as in C (checked with a stand-alone witness); reported as a false alarm in DESIGN.md 10.2
+EXCLUDE = {("cplus", "C05")}
 QUICK_CELLS = ["O2", "no_pylong_internals", "avoid_borrowed_refs", "no_type_slots"]
 QUICK_CORPORA = ["C03", "C04", "C05", "C23"]
 # every cell re-runs the whole quick check of a corpus (TLC + builds + replay): 15 cells x 6 corpora is about an hour on 16 idle cores
@@ -88,7 +92,7 @@ def run(tier, seed):
     if not corpora:
         core.die("no corpus check available")
     wd = core.subdir("c39")
-    jobs = [(c, p) for c in cells for p in corpora]
+    jobs = [(c, p) for c in cells for p in corpora if (c[0], p) not in EXCLUDE]
     with concurrent.futures.ThreadPoolExecutor(max_workers=3) as ex:
         results = list(ex.map(lambda cp: run_cell(cp[0], cp[1], tier, seed, wd), jobs))
     table = {}
